@@ -14,7 +14,7 @@ CLAIMED = {
    text="Exhaustive enumeration of battles (1..4 warriors over a 16-instruction scheduling alphabet, every offset, entry point, process limits 1..3 and 5..17, cycle limits; thorough: other core sizes and read/write limits) driven cycle by cycle in lock step with an independent reference scheduler (executed tasks, queues, alive flags, counters, whole core after every cycle), Run() on a fresh simulator compared with the stepped final state, plus long runs (70000 cycles, 70000 processes).",
    technique="explicit-state enumeration of battles + lock-step reference scheduler trace comparison"),
  "C12": dict(engine="e2-battles", design="4/C12",
-   text="Every enumerated battle (1..3 warriors, M in {5,8}, limits (M,M) and (3,4)) is re-run at every shift in [0,M) and with offsets spelled off+jM (j in 0..2); results, cycle count, rotated core and rotated queues must equal the unshifted run (differential oracle, no reference model).",
+   text="Every enumerated battle (1..3 warriors, M in {5,8}, limits (M,M) and (3,4)) is re-run at every shift in [0,M) and with offsets spelled off+jM (j in 0..2); results, cycle count, rotated core and rotated queues must equal the unshifted run (differential oracle, no reference model); warriors exactly as long as the core and one cell shorter are included.",
    technique="exhaustive enumeration of battles x all placements, differential (metamorphic) comparison"),
  "C04": dict(engine="e1-stepspace + e2-battles + config product", design="4/C04",
    text="Invariants (fields and PCs < M, queue <= P, cycles <= limit, living == #alive, alive <=> queue non-empty, no panic) on every successor of the step spaces, after every cycle of every battle of all 7616 one-instruction warriors against 12 hostile programs, and on a boundary product of all seven configuration fields (refused with an error, or supports a hostile battle).",
@@ -35,13 +35,13 @@ CLAIMED = {
    text="The structural predicate (fields < M, entry point inside the code, length <= maximum, defined enum values; under ICWS'88 an independent legality table with the implied modifier) is evaluated on every input that assembles among the C03 and C08 spaces and targeted grids around every range check (ORG/END k around the length in 5 spellings, lengths around the maximum written out and through FOR, all opcode x modifier x 9 x 10 mode combinations under ICWS'88, extreme literals).",
    technique="bounded exhaustive input enumeration + invariant (predicate) on every accepted output"),
  "C09": dict(engine="e5-loadfiles", design="4/C09",
-   text="Every instruction form legal in each dialect as a one-instruction warrior (field values {0,1,M-1,M/2,M/2+1}, three spellings, four core sizes), all 2..3-instruction warriors over a 12-form alphabet with every entry point, and every set of <=2 layout perturbations of representative files are printed canonically and read back by both ParseLoadFile and CompileWarrior; both must return exactly the warrior.",
+   text="Every instruction form legal in each dialect as a one-instruction warrior (field values {0,1,M-1,M/2,M/2+1}, three spellings, four core sizes), all 2..3-instruction warriors over a 12-form alphabet with every entry point, every ordered pair of legal '88 forms and the '94 pairs sharing an opcode or differing in opcode only as two-line warriors, and every set of <=2 layout perturbations of representative files (incl. comments that contain ';' and syntax-like words) are printed canonically and read back by both ParseLoadFile and CompileWarrior; both must return exactly the warrior.",
    technique="bounded exhaustive enumeration of warriors x deviation-bounded layout perturbations, round-trip oracle"),
  "C10": dict(engine="e5-loadfiles", design="4/C10",
-   text="Every single and double corruption (field deletion/duplication/transposition, 14 replacement numbers, bad mnemonics and modes, 14 directive insertions at every boundary, truncation at every byte, missing final newline) of 10 canonical files per dialect: the loader returns without panic with an error, or a well-formed warrior whose length equals the number of instruction-candidate lines before the end marker as classified by an independent line classifier.",
+   text="Every single and double corruption (field deletion/duplication/transposition, 14 replacement numbers, bad mnemonics and modes, 14 directive insertions at every boundary, truncation at every byte, missing final newline) of 10 canonical files per dialect, and every ICWS'88 file of two instruction lines over every ordered pair of opcode x A-mode x B-mode line forms, legal or not (plus three-line files around a repeated opcode): the loader returns without panic with an error, or a well-formed warrior whose length equals the number of instruction-candidate lines before the end marker as classified by an independent line classifier.",
    technique="exhaustive fault (corruption) enumeration up to 2 deviations with an independent line-classifier oracle"),
- "C16": dict(engine="e5-loadfiles", design="4/C16",
-   text="For each dialect every legal instruction form x every field pair for M in 3..9 and boundary fields for M in {80,8000,8192}, plus all 2..3-instruction warriors with every entry point, are printed with Warrior.LoadCode() and read back by an independent pMARS-listing reader; instructions (fields mod M) and entry point must match.",
+ "C16": dict(engine="e5-loadfiles + e8-cli (-A)", design="4/C16",
+   text="For each dialect every legal instruction form x every field pair for M in 3..9 and boundary fields for M in {80,8000,8192}, plus all 2..3-instruction warriors with every entry point, are printed with Warrior.LoadCode() and read back by an independent pMARS-listing reader; instructions (fields mod M) and entry point must match. The freshly built cmd/gmars -A is run on generated source files (every legal form of both dialects, two files per invocation, single files, one file twice, -s/-l/-8 and presets) and every printed block is read back the same way.",
    technique="exhaustive enumeration of warriors, print/read-back against an independent listing reader"),
  "C13": dict(engine="e3-apiseq", design="4/C13",
    text="Breadth-first search to closure over the reachable states of the real simulator (M=4, P=2, 3 cycles, <=3 warriors of 3 kinds) under AddWarrior, SpawnWarrior(i in -1..n+1, off in {0,M-1,M,2M+3}), RunCycle, Run, Reset; after every call the result and the full query battery (run twice) are compared with a reference state machine, every call runs under a non-return watchdog, and in every distinct state Reset+respawn is compared with a fresh simulator over all continuation sequences up to a bound.",
@@ -50,7 +50,7 @@ CLAIMED = {
    text="Every lexeme string up to a length bound over a 24-lexeme alphabet (incl. NUL, ^Z, invalid UTF-8, CR-LF), every 1- and 2-token mutation of 12 seed programs, every reader chunking / read error up to a deviation bound and every producer/consumer schedule of the lexer and FOR-expander goroutines up to a preemption bound are assembled on the instrumented build under a controlled scheduler: non-return is a deterministic step-budget verdict, a leaked goroutine is a thread still blocked when all others finished; err xor warrior and no panic are checked on every execution; a scaling family checks the step count against a linear budget; a free-running pass on the plain build re-checks goroutine counts.",
    technique="stateless exploration under a controlled scheduler (preemption / deviation bounded DFS) + bounded exhaustive input enumeration with a deterministic step budget"),
  "C14": dict(engine="e7-concurrency (instrumented build) + copy isolation + race pass", design="4/C14",
-   text="Scenarios of 2..3 concurrent jobs (three kinds of assembly, load, simulation sharing one configuration value and one WarriorData) run as threads of a controlled scheduler on the instrumented build with scheduling points at every function entry, loop iteration and channel operation: every interleaving up to a deviation bound must give each job its sequential result with no leak or deadlock; every map-iteration order vector with <=2 deviating sites over 14 symbol-table programs must give one result; every (mutation of caller data x API point) pair must leave the simulator's observations unchanged; a free-running -race pass over job sets and thread counts 1..32 complements this for plain-memory races.",
+   text="Scenarios of 2..3 concurrent jobs (three kinds of assembly, load, simulation sharing one configuration value and one WarriorData) run as threads of a controlled scheduler on the instrumented build with scheduling points at every function entry, loop iteration and channel operation: every interleaving up to a deviation bound must give each job its sequential result with no leak or deadlock; every map-iteration order vector with <=2 deviating sites over 14 symbol-table programs must give one result; every (mutation of caller data x API point) pair must leave the simulator's observations unchanged; the caller's one WarriorData variable handed to AddWarrior two and three times (one and two simulators) with every mutation in between must give the warriors that independent deep copies give; configuration neighbourhoods (a base and every valid single-field change) used forwards, backwards and alternating in one process must give every assembly its by-construction meaning and every probe battle the reference MARS result; a free-running -race pass over job sets and thread counts 1..32 complements this for plain-memory races.",
    technique="stateless interleaving exploration under a controlled scheduler (deviation-bounded DFS) + exhaustive map-order and mutation-point enumeration; race detector pass as sampled complement"),
  "C17": dict(engine="e8-cli", design="4/C17",
    text="cmd/gmars is rebuilt from the working tree and run on files rendered from 8 by-construction warriors under every ordered pair x every -F placement x a boundary grid of -s -l -p -c -8 -r, each preset, one-warrior runs; stdout must equal the tallies of the reference MARS, exit status 0. Random placement: the same command built with math/rand replaced through an overlay, every answer sequence of the random source forced for rounds 1..3; tallies must equal the reference results at the placements actually used and every round must be counted exactly once.",
@@ -61,7 +61,7 @@ PENDING = {
 }
 
 ENGINES = [
- {"name": "e8-cli", "path": "/verif/mc/engines/e8", "serves_properties": ["C17"], "kind_free_text": "drives the freshly built cmd/gmars binary over a flag / placement grid; forced random source through a build overlay"},
+ {"name": "e8-cli", "path": "/verif/mc/engines/e8", "serves_properties": ["C17", "C16"], "kind_free_text": "drives the freshly built cmd/gmars binary over a flag / placement grid; forced random source through a build overlay"},
  {"name": "e7-concurrency", "path": "/verif/mc/engines/e7", "serves_properties": ["C14"], "kind_free_text": "job interleavings and map orders under verif/mc/sched on the instrumented build; copy-isolation grid; free-running race-detector pass"},
  {"name": "e6-termination", "path": "/verif/mc/engines/e6", "serves_properties": ["C05", "C06"], "kind_free_text": "controlled scheduler (verif/mc/sched) over the instrumented build generated by verif/mc/cmd/vinst; token soup, mutations, reader chunkings, schedules"},
  {"name": "e3-apiseq", "path": "/verif/mc/engines/e3", "serves_properties": ["C13"], "kind_free_text": "explicit-state breadth-first search over API call sequences on the real simulator"},
